@@ -77,6 +77,18 @@ def run(chk, replay=None):
         chk.count()
         if isinstance(g, Raised) or not xr.close(g, exp, atol=1e-11 + extra):
             bad.append((fnname, repr(g), str(exp)))
+        elif kind in ('BLL', 'BRIER'):
+            # the caller re-scales the very array it passed (rates *= 4, exact) and scores it again: the value is that of the
+            # rates the array holds now
+            arr = numpy.array(data, dtype=float)
+            fn_ = be.binary_joint_log_likelihood_ndarray if kind == 'BLL' else br._brier_score_ndarray
+            first = guarded(fn_, arr, laid(wm, clay))
+            arr *= 4.0
+            second = guarded(fn_, arr, laid(wm, clay))
+            exp4 = xr.evaluate(case['stat'], {i: v * 4 for i, v in rates.items()})
+            chk.count(2)
+            if isinstance(second, Raised) or not xr.close(second, exp4, atol=1e-11 + 4 * extra):
+                bad.append((fnname + ' after the caller re-scaled the array in place', repr(second), str(exp4)))
         # public test level (only when every event sits in a positive-rate bin or the spec says -inf)
         fc = B.forecast(data, layout=lay)
         cat = B.catalog(wm, nc, nb)
